@@ -251,3 +251,308 @@ Proof.
         -- cbn [vimp]. unfold rm_rel. cbn [rm_val rm_key rm_self]. auto.
       * cbn [vimp]. unfold rm_rel. cbn [rm_val rm_key rm_self]. auto.
 Qed.
+
+(** ** The v2 operations never fail on well-formed trees *)
+Lemma v2_balance_defined wv k l r :
+  wf l -> wf r -> exists t', v2_balance wv (v2_node wv k l r) = Some t'.
+Proof.
+  intros Wl Wr. unfold v2_node. cbn [v2_balance v2_meta hs].
+  pose proof (height_nonneg _ Wl) as Hl0. pose proof (height_nonneg _ Wr) as Hr0.
+  destruct (1 <? height l - height r) eqn:C1.
+  - apply Z.ltb_lt in C1. destruct l as [|lk lh ls lm ll lr]; [cbn [height] in *; lia|].
+    cbn [wf] in Wl. destruct Wl as (Wll & Wlr & _ & _ & _ & Hlh & _).
+    pose proof (height_nonneg _ Wll). pose proof (height_nonneg _ Wlr).
+    cbn [bal_of]. destruct (0 <=? height ll - height lr) eqn:C2.
+    + cbn [v2_rotR]. eauto.
+    + apply Z.leb_gt in C2. destruct lr as [|rk rh rs rm rl rr]; [cbn [height] in *; lia|].
+      cbn [v2_rotL v2_rotR v2_node]. eauto.
+  - destruct (height l - height r <? -1) eqn:C3; [|eauto].
+    apply Z.ltb_lt in C3. destruct r as [|rk rh rs rm rl rr]; [cbn [height] in *; lia|].
+    cbn [wf] in Wr. destruct Wr as (Wrl & Wrr & _ & _ & _ & Hrh & _).
+    pose proof (height_nonneg _ Wrl). pose proof (height_nonneg _ Wrr).
+    cbn [bal_of]. destruct (height rl - height rr <=? 0) eqn:C2.
+    + cbn [v2_rotL]. eauto.
+    + apply Z.leb_gt in C2. destruct rl as [|lk lh ls lm ll lr]; [cbn [height] in *; lia|].
+      cbn [v2_rotL v2_rotR v2_node]. eauto.
+Qed.
+
+Lemma v2_set_wf wv sq k v t t' u :
+  wf t -> v2_set wv sq t k v = Some (t', u) -> wf t'.
+Proof.
+  intros W E. pose proof (v2_set_veq wv sq k v t t (veq_refl wv t)) as R. rewrite E in R.
+  cbn [vimp] in R. destruct R as [R _]. cbn [fst] in R.
+  eapply veq_wf; [apply veq_sym, R|]. apply set_spec, W.
+Qed.
+
+Lemma v2_set_defined wv sq k v t : wf t -> exists r, v2_set wv sq t k v = Some r.
+Proof.
+  induction t as [lk lv m|nk h s m l IHl r IHr]; intros W; cbn [v2_set].
+  - destruct (bcmp k lk); eauto.
+  - cbn [wf] in W. destruct W as (Wl & Wr & _).
+    destruct (blt k nk).
+    + destruct (IHl Wl) as ([l' upd] & E). rewrite E. destruct upd; [eauto|].
+      destruct (v2_balance_defined wv nk l' r (v2_set_wf _ _ _ _ _ _ _ Wl E) Wr) as (t' & B).
+      rewrite B. eauto.
+    + destruct (IHr Wr) as ([r' upd] & E). rewrite E. destruct upd; [eauto|].
+      destruct (v2_balance_defined wv nk l r' Wl (v2_set_wf _ _ _ _ _ _ _ Wr E)) as (t' & B).
+      rewrite B. eauto.
+Qed.
+
+Lemma v2_remove_self_wf wv k t res t' :
+  wf t -> avl t -> v2_remove wv t k = Some res -> rm_self res = Some t' -> wf t' /\ avl t'.
+Proof.
+  intros W A E S. pose proof (v2_remove_veq wv k t t (veq_refl wv t)) as R. rewrite E in R.
+  cbn [vimp] in R. destruct R as (Ev & _ & Es). rewrite S in Es.
+  pose proof (remove_spec t k W A) as P. unfold rm_post in P.
+  destruct (rm_self (remove t k)) as [t1|] eqn:S1; [|contradiction].
+  destruct (rm_val (remove t k)) as [val|] eqn:V1.
+  - destruct P as (_ & W1 & A1 & _). split.
+    + eapply veq_wf; [apply veq_sym, Es|exact W1].
+    + eapply veq_avl; [apply veq_sym, Es|exact A1].
+  - (* not removed: v1 returns the tree itself *)
+    assert (t1 = t).
+    { clear -S1 V1. destruct t as [lk lv m|nk h s m l r]; cbn [remove] in *.
+      - destruct (beq k lk); cbn [rm_val rm_self] in *; congruence.
+      - cbv zeta in *. destruct (blt k nk).
+        + destruct (rm_val (remove l k)); [|cbn [rm_self] in S1; congruence].
+          destruct (rm_self (remove l k)); cbn [rm_val] in V1; discriminate.
+        + destruct (rm_val (remove r k)); [|cbn [rm_self] in S1; congruence].
+          destruct (rm_self (remove r k)); cbn [rm_val] in V1; discriminate. }
+    subst t1. split.
+    + eapply veq_wf; [apply veq_sym, Es|exact W].
+    + eapply veq_avl; [apply veq_sym, Es|exact A].
+Qed.
+
+Lemma v2_remove_defined wv k t : wf t -> avl t -> exists res, v2_remove wv t k = Some res.
+Proof.
+  induction t as [lk lv m|nk h s m l IHl r IHr]; intros W A; cbn [v2_remove]; [eauto|].
+  cbn [wf] in W. destruct W as (Wl & Wr & _). cbn [avl] in A. destruct A as (Al & Ar & _).
+  destruct (blt k nk).
+  - destruct (IHl Wl Al) as (res & E). rewrite E.
+    destruct (rm_val res) as [val|]; [|eauto].
+    destruct (rm_self res) as [l'|] eqn:S; [|eauto].
+    destruct (v2_remove_self_wf wv k l res l' Wl Al E S) as [W' _].
+    destruct (v2_balance_defined wv nk l' r W' Wr) as (t' & B). rewrite B. eauto.
+  - destruct (IHr Wr Ar) as (res & E). rewrite E.
+    destruct (rm_val res) as [val|]; [|eauto].
+    destruct (rm_self res) as [r'|] eqn:S; [|eauto].
+    destruct (v2_remove_self_wf wv k r res r' Wr Ar E S) as [W' _].
+    cbv zeta.
+    destruct (v2_balance_defined wv (match rm_key res with Some k' => k' | None => nk end)
+                l r' Wl W') as (t' & B). rewrite B. eauto.
+Qed.
+
+(** ** Predicates preserved by the v2 writes *)
+Section Preserve.
+  Variable wv : Z.
+  Variable P : node -> Prop.
+  Hypothesis P_sub : forall k h s m l r, P (Inner k h s m l r) -> P l /\ P r.
+  Hypothesis P_inner : forall k h s sq l r, P l -> P r -> P (Inner k h s (v2_meta wv sq) l r).
+  Hypothesis P_leaf : forall k v sq, P (Leaf k v (v2_meta wv sq)).
+
+  Lemma P_node k l r : P l -> P r -> P (v2_node wv k l r).
+  Proof. intros. unfold v2_node. apply P_inner; assumption. Qed.
+
+  Lemma v2_rotR_pres t t' : P t -> v2_rotR wv t = Some t' -> P t'.
+  Proof.
+    destruct t as [|k h s m l r]; [discriminate|]. destruct l as [|lk lh ls lm ll lr]; [discriminate|].
+    intros Pt E. cbn [v2_rotR] in E. injection E as <-.
+    destruct (P_sub _ _ _ _ _ _ Pt) as [Pl Pr]. destruct (P_sub _ _ _ _ _ _ Pl) as [Pll Plr].
+    apply P_node; [assumption|]. apply P_node; assumption.
+  Qed.
+
+  Lemma v2_rotL_pres t t' : P t -> v2_rotL wv t = Some t' -> P t'.
+  Proof.
+    destruct t as [|k h s m l r]; [discriminate|]. destruct r as [|rk rh rs rm rl rr]; [discriminate|].
+    intros Pt E. cbn [v2_rotL] in E. injection E as <-.
+    destruct (P_sub _ _ _ _ _ _ Pt) as [Pl Pr]. destruct (P_sub _ _ _ _ _ _ Pr) as [Prl Prr].
+    apply P_node; [|assumption]. apply P_node; assumption.
+  Qed.
+
+  Lemma v2_balance_pres k l r t' :
+    P l -> P r -> v2_balance wv (v2_node wv k l r) = Some t' -> P t'.
+  Proof.
+    intros Pl Pr. unfold v2_node. cbn [v2_balance v2_meta hs].
+    assert (Pt : P (Inner k (Z.max (height l) (height r) + 1) (size l + size r) (v2_meta wv 0) l r))
+      by (apply P_inner; assumption).
+    destruct (1 <? height l - height r).
+    - destruct (0 <=? bal_of l); [intros E; exact (v2_rotR_pres _ _ Pt E)|].
+      destruct (v2_rotL wv l) as [l'|] eqn:E; [|discriminate].
+      intros E2. refine (v2_rotR_pres _ _ _ E2).
+      apply (P_inner k _ _ 0); [exact (v2_rotL_pres _ _ Pl E)|assumption].
+    - destruct (height l - height r <? -1); [|intros E; injection E as <-; exact Pt].
+      destruct (bal_of r <=? 0); [intros E; exact (v2_rotL_pres _ _ Pt E)|].
+      destruct (v2_rotR wv r) as [r'|] eqn:E; [|discriminate].
+      intros E2. refine (v2_rotL_pres _ _ _ E2).
+      apply (P_inner k _ _ 0); [assumption|exact (v2_rotR_pres _ _ Pr E)].
+  Qed.
+
+  Lemma v2_set_pres sq k v t : forall t' u, P t -> v2_set wv sq t k v = Some (t', u) -> P t'.
+  Proof.
+    induction t as [lk lv m|nk h s m l IHl r IHr]; intros t' u Pt; cbn [v2_set].
+    - destruct (bcmp k lk); intros E; injection E as <- _; auto.
+    - destruct (P_sub _ _ _ _ _ _ Pt) as [Pl Pr].
+      destruct (blt k nk).
+      + destruct (v2_set wv sq l k v) as [[l' upd]|]; [|discriminate].
+        specialize (IHl l' upd Pl eq_refl). destruct upd.
+        * intros E; injection E as <- _. auto.
+        * destruct (v2_balance wv (v2_node wv nk l' r)) as [t1|] eqn:B; [|discriminate].
+          intros E; injection E as <- _. exact (v2_balance_pres _ _ _ _ IHl Pr B).
+      + destruct (v2_set wv sq r k v) as [[r' upd]|]; [|discriminate].
+        specialize (IHr r' upd Pr eq_refl). destruct upd.
+        * intros E; injection E as <- _. auto.
+        * destruct (v2_balance wv (v2_node wv nk l r')) as [t1|] eqn:B; [|discriminate].
+          intros E; injection E as <- _. exact (v2_balance_pres _ _ _ _ Pl IHr B).
+  Qed.
+
+  Lemma v2_remove_pres k t : forall res t',
+    P t -> v2_remove wv t k = Some res -> rm_self res = Some t' -> P t'.
+  Proof.
+    induction t as [lk lv m|nk h s m l IHl r IHr]; intros res t' Pt; cbn [v2_remove].
+    - destruct (beq k lk); intros E; injection E as <-; cbn [rm_self]; intros S;
+        [discriminate|injection S as <-; exact Pt].
+    - destruct (P_sub _ _ _ _ _ _ Pt) as [Pl Pr].
+      destruct (blt k nk).
+      + destruct (v2_remove wv l k) as [res1|]; [|discriminate].
+        destruct (rm_val res1) as [val|];
+          [|intros E; injection E as <-; cbn [rm_self]; intros S; injection S as <-; exact Pt].
+        destruct (rm_self res1) as [l'|] eqn:S1.
+        * specialize (IHl res1 l' Pl eq_refl S1).
+          destruct (v2_balance wv (v2_node wv nk l' r)) as [t1|] eqn:B; [|discriminate].
+          intros E; injection E as <-; cbn [rm_self]; intros S; injection S as <-.
+          exact (v2_balance_pres _ _ _ _ IHl Pr B).
+        * intros E; injection E as <-; cbn [rm_self]; intros S; injection S as <-; exact Pr.
+      + destruct (v2_remove wv r k) as [res1|]; [|discriminate].
+        destruct (rm_val res1) as [val|];
+          [|intros E; injection E as <-; cbn [rm_self]; intros S; injection S as <-; exact Pt].
+        destruct (rm_self res1) as [r'|] eqn:S1.
+        * specialize (IHr res1 r' Pr eq_refl S1). cbv zeta.
+          destruct (v2_balance wv (v2_node wv _ l r')) as [t1|] eqn:B; [|discriminate].
+          intros E; injection E as <-; cbn [rm_self]; intros S; injection S as <-.
+          exact (v2_balance_pres _ _ _ _ Pl IHr B).
+        * intros E; injection E as <-; cbn [rm_self]; intros S; injection S as <-; exact Pl.
+  Qed.
+End Preserve.
+
+(** ** v2 trees carry no zero version *)
+Lemma all_persisted_sub k h s m l r :
+  all_persisted (Inner k h s m l r) -> all_persisted l /\ all_persisted r.
+Proof. cbn [all_persisted]. tauto. Qed.
+
+Lemma v2_set_persisted wv sq k v t t' u :
+  wv <> 0 -> all_persisted t -> v2_set wv sq t k v = Some (t', u) -> all_persisted t'.
+Proof.
+  intros Hwv. apply (v2_set_pres wv all_persisted all_persisted_sub).
+  - intros. cbn [all_persisted v2_meta ver]. auto.
+  - intros. cbn [all_persisted v2_meta ver]. auto.
+Qed.
+
+Lemma v2_remove_persisted wv k t res t' :
+  wv <> 0 -> all_persisted t -> v2_remove wv t k = Some res -> rm_self res = Some t' ->
+  all_persisted t'.
+Proof.
+  intros Hwv. apply (v2_remove_pres wv all_persisted all_persisted_sub).
+  intros. cbn [all_persisted v2_meta ver]. auto.
+Qed.
+
+(** on trees without zero versions [veq] does not depend on the working version *)
+Lemma veq_persisted_any a b t1 : forall t2,
+  all_persisted t1 -> all_persisted t2 -> veq a t1 t2 -> veq b t1 t2.
+Proof.
+  induction t1 as [k v m|k h s m l IHl r IHr]; intros [k2 v2 m2|k2 h2 s2 m2 l2 r2];
+    cbn [veq all_persisted]; try tauto.
+  - intros P1 P2 (A & B & C). rewrite !eff_ver_old in * by assumption. auto.
+  - intros (P1 & Pl1 & Pr1) (P2 & Pl2 & Pr2) (A & B & C & D & E & F).
+    rewrite !eff_ver_old in * by assumption. auto 8.
+Qed.
+
+Section HashV2.
+  Variable H : bytes -> bytes.
+
+  (** v2's hash from scratch is v1's structural hash (read with working version 0) *)
+  Lemma v2_hash_pure t : v2_hash H t = pure_hash H 0 t.
+  Proof.
+    assert (EV : forall m, eff_ver 0 m = ver m).
+    { intros m. unfold eff_ver. destruct (ver m =? 0) eqn:E; [apply Z.eqb_eq in E; auto|auto]. }
+    induction t as [k v m|k h s m l IHl r IHr]; cbn [v2_hash pure_hash]; rewrite EV; congruence.
+  Qed.
+
+  (** stored hashes, where present, are right *)
+  Fixpoint v2_hok (t : node) : Prop :=
+    (hs (nmeta t) = [] \/ hs (nmeta t) = v2_hash H t) /\
+    match t with
+    | Leaf _ _ _ => True
+    | Inner _ _ _ _ l r => v2_hok l /\ v2_hok r
+    end.
+
+  Lemma v2_hok_sub k h s m l r : v2_hok (Inner k h s m l r) -> v2_hok l /\ v2_hok r.
+  Proof. cbn [v2_hok]. tauto. Qed.
+
+  Lemma v2_set_hok wv sq k v t t' u : v2_hok t -> v2_set wv sq t k v = Some (t', u) -> v2_hok t'.
+  Proof.
+    apply (v2_set_pres wv v2_hok v2_hok_sub).
+    - intros. cbn [v2_hok nmeta v2_meta hs]. auto.
+    - intros. cbn [v2_hok nmeta v2_meta hs]. auto.
+  Qed.
+
+  Lemma v2_remove_hok wv k t res t' :
+    v2_hok t -> v2_remove wv t k = Some res -> rm_self res = Some t' -> v2_hok t'.
+  Proof.
+    apply (v2_remove_pres wv v2_hok v2_hok_sub).
+    intros. cbn [v2_hok nmeta v2_meta hs]. auto.
+  Qed.
+
+  Lemma v2_hash_meta_irrel_leaf k v m m' :
+    ver m = ver m' -> v2_hash H (Leaf k v m) = v2_hash H (Leaf k v m').
+  Proof. cbn [v2_hash]. intros ->. reflexivity. Qed.
+
+  (** deepHash computes the hash from scratch, changes stored hashes only *)
+  Lemma v2_deep_hash_spec t :
+    v2_hok t ->
+    hs (nmeta (v2_deep_hash H t)) = v2_hash H t /\
+    v2_hash H (v2_deep_hash H t) = v2_hash H t /\
+    v2_hok (v2_deep_hash H t) /\
+    (forall wv, veq wv (v2_deep_hash H t) t).
+  Proof.
+    induction t as [k v m|k h s m l IHl r IHr]; intros Hok.
+    - cbn [v2_deep_hash]. destruct (hs m) as [|b bs] eqn:E.
+      + cbn [nmeta hs v2_hash ver v2_hok veq]. repeat split; auto.
+      + destruct Hok as [[C|C] _]; cbn [nmeta] in C; [congruence|].
+        split; [exact C|]. split; [reflexivity|]. split; [|intros; apply veq_refl].
+        cbn [v2_hok nmeta]. auto.
+    - cbn [v2_deep_hash]. destruct (hs m) as [|b bs] eqn:E.
+      + destruct (v2_hok_sub _ _ _ _ _ _ Hok) as [Hl Hr].
+        destruct (IHl Hl) as (A1 & A2 & A3 & A4). destruct (IHr Hr) as (B1 & B2 & B3 & B4).
+        cbn [nmeta hs v2_hash ver]. rewrite A1, B1, A2, B2.
+        split; [reflexivity|]. split; [reflexivity|]. split.
+        * cbn [v2_hok nmeta hs v2_hash ver]. rewrite A2, B2. auto.
+        * intros wv. cbn [veq]. unfold eff_ver. cbn [ver]. auto 8.
+      + destruct Hok as [[C|C] Hc]; cbn [nmeta] in C; [congruence|].
+        split; [exact C|]. split; [reflexivity|]. split; [|intros; apply veq_refl].
+        cbn [v2_hok nmeta]. auto.
+  Qed.
+
+  Lemma v2_deep_hash_persisted t : all_persisted t -> all_persisted (v2_deep_hash H t).
+  Proof.
+    induction t as [k v m|k h s m l IHl r IHr]; cbn [v2_deep_hash all_persisted].
+    - destruct (hs m); cbn [all_persisted ver]; auto.
+    - intros (A & B & C). destruct (hs m); cbn [all_persisted ver]; auto.
+  Qed.
+
+  (** stamping changes nothing [veq] sees *)
+  Lemma stamp_veq wv t : wv <> 0 -> forall n, veq wv t (fst (stamp H wv n t)).
+  Proof.
+    intros Hwv. induction t as [k v m|k h s m l IHl r IHr]; intros n.
+    - rewrite stamp_leaf. unfold is_new. cbn [nmeta].
+      destruct (ver m =? 0) eqn:E; cbn [negb fst]; [|apply veq_refl].
+      apply Z.eqb_eq in E. cbn [veq].
+      rewrite (eff_ver_new wv m E), eff_ver_old by exact Hwv. auto.
+    - rewrite stamp_inner. unfold is_new. cbn [nmeta].
+      destruct (ver m =? 0) eqn:E; cbn [negb fst]; [|apply veq_refl].
+      apply Z.eqb_eq in E.
+      specialize (IHl (n + 1)). destruct (stamp H wv (n + 1) l) as [l' n1].
+      specialize (IHr n1). destruct (stamp H wv n1 r) as [r' n2].
+      cbn [fst] in *. cbn [veq].
+      rewrite (eff_ver_new wv m E), eff_ver_old by exact Hwv. auto 8.
+  Qed.
+End HashV2.
